@@ -5,6 +5,18 @@ def opf(name, sources, quick, thorough, **kw):
     d.update(kw)
     return d
 
+def rel(part, frac=4):
+    """The same part in the library's release configuration (-DNDEBUG: ASSERT vanishes, VERIFY keeps only its side effects) at a
+    fraction of the cases: a statement that lives inside an ASSERT, or a VERIFY turned into an ASSERT, only misbehaves there."""
+    import copy
+    d = copy.deepcopy(part)
+    d["name"] = part["name"] + "_release"
+    d["bin"] = part.get("bin", part["name"]) + "_rel"
+    d["flavour"] = "schedrel" if part.get("flavour") == "sched" else "asanrel"
+    for t in d["tiers"].values():
+        t["cases"] = max(1000, t["cases"] // frac)
+    return d
+
 PROPS = {}
 NOT_YET = {}
 UNFINISHED = set()  # registered in props_c*.py but not yet claimed in MANIFEST.json
@@ -62,7 +74,8 @@ PROPS["C02"] = {
     "rule": "opfuzz: histories of 2..2*size ops over three HashMap / HashSet / PoolMap objects with capacities drawn from {0,1,2,3,4,7,16,500,default} and hash modulus from {1,2,3,7,identity}; after every op size/isEmpty/iteration both ways/front/back/find+contains for the whole key universe/returned iterators/element addresses/held iterators are compared with the model. "
             "Non-trivial = (a bucket chain reached length >=3 AND an element was removed from the middle of such a chain) OR a swap/assignment between two non-empty tables of different capacity; distinct by case text hash.",
     "assumptions": ["a payload field that is not part of key equality shows whether an existing entry was touched"],
-    "parts": hash_parts({"cases": 50000, "maxsize": 30}, {"cases": 500000, "maxsize": 120, "workers": 16}) + [HASHKEYS],
+    "parts": hash_parts({"cases": 50000, "maxsize": 30}, {"cases": 500000, "maxsize": 120, "workers": 16}) + [HASHKEYS]
+             + [rel(p_) for p_ in hash_parts({"cases": 50000, "maxsize": 30}, {"cases": 500000, "maxsize": 120, "workers": 16}) if p_["name"] in ("hashmap", "hashset")],
 }
 
 
@@ -81,7 +94,8 @@ PROPS["C03"] = {
     "rule": "opfuzz: histories of 2..2*size ops (append/prepend/insert at position or held iterator/remove by iterator, index, value/resize/reserve/clear/swap/copy/assign/bulk append+insert/sort/find) over three containers; after every op size, isEmpty, contents both ways, front/back, pointer view and capacity (Array), returned iterators/references, element addresses (List, PoolList) are compared with the model. "
             "Non-trivial: List = a sort of >=8 elements with duplicates, or an insert at a held iterator after removals; Array = crossed >=2 capacity changes and removed from the middle; PoolList = an append after a removal (slot reuse); distinct by case text hash.",
     "assumptions": ["PoolList::front/back cannot be instantiated on the pinned tree (they reference a non-existing member) and are not used"],
-    "parts": seq_parts({"cases": 50000, "maxsize": 30}, {"cases": 500000, "maxsize": 120, "workers": 16}),
+    "parts": seq_parts({"cases": 50000, "maxsize": 30}, {"cases": 500000, "maxsize": 120, "workers": 16})
+             + [rel(p_) for p_ in seq_parts({"cases": 50000, "maxsize": 30}, {"cases": 500000, "maxsize": 120, "workers": 16}) if p_["name"] in ("array", "list")],
 }
 
 
@@ -95,7 +109,9 @@ PROPS["C04"] = {
     "assumptions": ["PoolList and PoolMap are not copyable by design; their self-referential arguments are key references and remove(value&)"],
     "parts": tree_parts({"cases": 40000, "maxsize": 24}, {"cases": 300000, "maxsize": 100, "workers": 16})
              + hash_parts({"cases": 40000, "maxsize": 24}, {"cases": 300000, "maxsize": 100, "workers": 16})
-             + seq_parts({"cases": 40000, "maxsize": 24}, {"cases": 300000, "maxsize": 100, "workers": 16}),
+             + seq_parts({"cases": 40000, "maxsize": 24}, {"cases": 300000, "maxsize": 100, "workers": 16})
+             + [rel(p_) for p_ in seq_parts({"cases": 40000, "maxsize": 24}, {"cases": 300000, "maxsize": 100, "workers": 16}) if p_["name"] == "array"]
+             + [rel(p_) for p_ in hash_parts({"cases": 40000, "maxsize": 24}, {"cases": 300000, "maxsize": 100, "workers": 16}) if p_["name"] == "hashmap"],
 }
 
 PROPS["C05"] = {
@@ -246,7 +262,8 @@ PROPS["C11"] = {
     "rule": "case = primitive, initial value, 2-4 thread programs, 10 schedules (60 when replaying) cycling through four strategies. Invariants: Mutex occupancy <=1 with re-entrance, tryLock fails only when another thread owns it, no blocked thread at the end; Semaphore successful waits <= initial + signals, no waiter blocked at quiescence with positive count; Signal wait true only if set since the last reset, no waiter blocked at quiescence while set; Monitor successful waits <= sets and a set issued while a waiter has the monitor releases a waiter; timed waits return false only after their time-out in virtual time; Thread::join returns the function's result after its last step. "
             "Non-trivial = a schedule with >=3 context switches and consecutive operations of different threads on one location inside the primitive, or a generated spurious wake-up / time-out / EINTR event; distinct by case text hash.",
     "assumptions": ["sequential consistency", "POSIX semantics of the modelled primitives"],
-    "parts": [opf("sync", ["harness/c11_sync.cpp"], {"cases": 6000, "maxsize": 20}, {"cases": 80000, "maxsize": 32, "workers": 16}, flavour="sched", deps=["harness/vs_common.hpp"])],
+    "parts": [opf("sync", ["harness/c11_sync.cpp"], {"cases": 6000, "maxsize": 20}, {"cases": 80000, "maxsize": 32, "workers": 16}, flavour="sched", deps=["harness/vs_common.hpp"]),
+              rel(opf("sync", ["harness/c11_sync.cpp"], {"cases": 6000, "maxsize": 20}, {"cases": 80000, "maxsize": 32, "workers": 16}, flavour="sched", deps=["harness/vs_common.hpp"], bin="C11_sync"))],
 }
 
 
@@ -261,7 +278,8 @@ PROPS["C13"] = {
     "rule": "case = optional small kernel send buffer, a fault script of 0..2*size entries (shapes: mixture, would-block phase then full, 1-byte partials, alternating, large partials), 3..size actions (write, suspend, resume, peer reads/writes, queries, leaving run(), and arming the next onWrite / onRead callback of a client to perform a write itself). Oracle: bytes handed to the kernel are a prefix of the accepted stream and the peer finally receives exactly the accepted bytes in order; 'postponed' and getSendBufferSize() equal accepted minus handed; onWrite exactly once per drain and never with backlog; no onRead between suspend() and resume(); ASan. "
             "Non-trivial = a partial send or would-block left a backlog, a further write happened while the backlog was non-empty, and the backlog drained (onWrite); distinct by case text hash.",
     "assumptions": ["Client::write gets size >= 1", "the peer of a pair()ed client is a local stream socket"],
-    "parts": [opf("server", ["harness/c13_server.cpp"], {"cases": 250000, "maxsize": 40}, {"cases": 300000, "maxsize": 80, "workers": 16}, ldflags=SRV_WRAPS, deps=["harness/srv_common.hpp"])],
+    "parts": [opf("server", ["harness/c13_server.cpp"], {"cases": 250000, "maxsize": 40}, {"cases": 300000, "maxsize": 80, "workers": 16}, ldflags=SRV_WRAPS, deps=["harness/srv_common.hpp"]),
+              rel(opf("server", ["harness/c13_server.cpp"], {"cases": 250000, "maxsize": 40}, {"cases": 300000, "maxsize": 80, "workers": 16}, ldflags=SRV_WRAPS, deps=["harness/srv_common.hpp"], bin="C13_server"))],
 }
 
 
@@ -275,6 +293,7 @@ PROPS["C14"] = {
             "Non-trivial = (>=3 coinciding due times AND a removal among them) OR a removal of an object with a pending event OR a timer removing itself from its callback together with other actions inside callbacks; interrupt part: case = 1-3 runs, delays before each run and each interrupt, duplicate interrupts, optional timer; 10 schedules per case; oracle: every run() returns after its interrupt, less than 290 s of virtual time later (not by the default time-out), no deadlock; non-trivial = a schedule with >=4 context switches (interrupt while the loop polls) or an interrupt issued before run() started; distinct by case text hash.",
     "assumptions": ["Server::time gets interval >= 1", "Server objects are used from the loop thread; only interrupt() is called from another thread"],
     "parts": [opf("loop", ["harness/c14_loop.cpp"], {"cases": 150000, "maxsize": 40}, {"cases": 1500000, "maxsize": 80, "workers": 16}, ldflags=SRV_WRAPS, deps=["harness/srv_common.hpp"]),
+              rel(opf("loop", ["harness/c14_loop.cpp"], {"cases": 150000, "maxsize": 40}, {"cases": 1500000, "maxsize": 80, "workers": 16}, ldflags=SRV_WRAPS, deps=["harness/srv_common.hpp"], bin="C14_loop")),
               opf("interrupt", ["harness/c14_interrupt.cpp"], {"cases": 1500, "maxsize": 4}, {"cases": 20000, "maxsize": 4, "workers": 16}, flavour="sched", wraps=["epoll_wait", "write"], plain_sources=["vsched/rt_io.cpp"], deps=["harness/vs_common.hpp"])],
 }
 
